@@ -413,13 +413,29 @@ def bestMatch (p : Bytes) : List Bytes → Option Bytes → Option Bytes
       | some b => if b.length < pat.length then bestMatch p pats (some pat) else bestMatch p pats acc
     else bestMatch p pats acc
 
-def route (pats : List Bytes) (p : Bytes) : Route :=
-  if !isCleanPath p then .redirect
-  else if pats.contains p then .handler p
+/-- `matchOrRedirect` on a path the mux takes as it is: an exactly registered path wins, "/tree" is
+    redirected to a registered "/tree/", else the longest matching subtree pattern -/
+def routeRaw (pats : List Bytes) (p : Bytes) : Route :=
+  if pats.contains p then .handler p
   else if p.getLast? != some slash && pats.contains (p ++ [slash]) then .redirect
   else match bestMatch p pats none with
     | some pat => .handler pat
     | none => .notFound
+
+/-- every method but CONNECT: the path is canonicalised first, an unclean one is redirected -/
+def route (pats : List Bytes) (p : Bytes) : Route :=
+  if !isCleanPath p then .redirect else routeRaw pats p
+
+def sCONNECT : Bytes := [67, 79, 78, 78, 69, 67, 84]   -- "CONNECT"
+
+/-- CONNECT requests are not canonicalised ("//", "." and ".." segments are matched as they are).
+    The routing tree drops the first byte of the path without looking at it (`firstSegment`), so a
+    path that lost its leading slash in an `/id/` rewrite is matched as if it had one; the empty
+    path matches nothing, but is redirected to "/" when "/" is registered. -/
+def routeConnect (pats : List Bytes) (p : Bytes) : Route :=
+  match p with
+  | [] => if pats.contains [slash] then .redirect else .notFound
+  | _ :: t => routeRaw pats (slash :: t)
 
 -- ---------------------------------------------------------------- handleConfigID
 inductive IdRes where
@@ -431,6 +447,12 @@ abbrev Index := List (Bytes × Bytes)   -- rawCfgIndex: id ↦ expanded path
 
 def lookupId (idx : Index) (id : Bytes) : Option Bytes := (idx.find? (·.1 = id)).map (·.2)
 
+def sConfigRoot : Bytes := [47, 99, 111, 110, 102, 105, 103]   -- "/config"
+
+/-- `path.Join` drops a trailing slash, but the config as a whole is only served at "/config/"
+    (since /repo dc51022): `if r.URL.Path == "/"+rawConfigKey { r.URL.Path += "/" }` -/
+def topLevelSlash (p : Bytes) : Bytes := if p = sConfigRoot then p ++ [slash] else p
+
 def handleConfigID (idx : Index) (path : Bytes) : IdRes :=
   match splitSlash path with
   | p0 :: p1 :: p2 :: rest =>
@@ -438,7 +460,7 @@ def handleConfigID (idx : Index) (path : Bytes) : IdRes :=
     else if p0 ≠ [] || p1 ≠ sId then .badRequest
     else match lookupId idx p2 with
       | none => .unknownId
-      | some expanded => .redirect (pathJoin (expanded :: rest))
+      | some expanded => .redirect (topLevelSlash (pathJoin (expanded :: rest)))
   | _ => .badRequest
 
 /-- the paths `handleConfigID` alone would produce from `p`, ignoring the gate and the mux (an
@@ -508,8 +530,9 @@ def serveHTTP {σ : Type} (H : Bytes → Req → σ → σ) (mux : Bytes → Byt
   serve H mux h idx fuel r s [] 0
 
 /-- the mux `newAdminHandler` fills: Go's ServeMux on the registered "/exact" and "/subtree/"
-    patterns (the method plays no role for these pattern forms) -/
-def muxOf (h : Handler) : Bytes → Bytes → Route := fun _ p => route h.pats p
+    patterns (the method matters only through CONNECT, which is not canonicalised) -/
+def muxOf (h : Handler) : Bytes → Bytes → Route :=
+  fun m p => if m = sCONNECT then routeConnect h.pats p else route h.pats p
 
 /-- the handler as `newAdminHandler` builds it: gate + its own mux -/
 def serveReal {σ : Type} (H : Bytes → Req → σ → σ) (h : Handler) (idx : Index) (fuel : Nat)
